@@ -141,7 +141,8 @@ func c05ParseP(f []string) base.RtmpMsg {
 	return c05MkMsg(uint8(numTok(f[1])), uint32(numTok(f[2])), bytesTok(f[3]))
 }
 
-const c05SlowLimit = time.Second
+// generous: the largest per-message time of a quick run is a few ms; 2 s keeps a > 100x margin on a loaded box
+const c05SlowLimit = 2 * time.Second
 
 func runC05Bcast(cfgTok, evTok string) (out string) {
 	kv := parseKV(cfgTok)
